@@ -35,6 +35,7 @@ type exhaustiveConfig struct {
 	Depth             int
 	NonTrivialInLists int64
 	Reentrant         bool
+	Buffers           bool
 }
 
 func exhaustiveConfigs() []exhaustiveConfig {
@@ -53,6 +54,9 @@ func exhaustiveConfigs() []exhaustiveConfig {
 		{Shape: ShapeExpirable, Cap: 2, Keys: 2, DepthQ: 4, DepthT: 6},
 		// re-entrant create functions: the alphabet additionally has, per key, GetOrCreate whose create function
 		// first calls GetOrCreate(ok|error) / Remove / GetOrCreate{GetOrCreate} on the other key(s)
+		// the caller re-uses its PK buffers: PKs stored in the cache are overwritten behind its back (alphabet 13 / 19)
+		{Shape: ShapeECache, Cap: 1, Keys: 2, DepthQ: 4, DepthT: 5, Buffers: true},
+		{Shape: ShapeECache, Cap: 2, Keys: 3, DepthQ: 3, DepthT: 4, Buffers: true},
 		{Shape: ShapeCache, Cap: 1, Keys: 2, DepthQ: 3, DepthT: 5, Reentrant: true},
 		{Shape: ShapeCache, Cap: 2, Keys: 3, DepthQ: 3, DepthT: 4, Reentrant: true},
 		{Shape: ShapeExpirable, Cap: 2, Keys: 3, DepthQ: 3, DepthT: 4, Reentrant: true},
@@ -77,6 +81,9 @@ func TestC08Exhaustive(t *testing.T) {
 	for ci := range cfgs {
 		cfg := &cfgs[ci]
 		alpha := Alphabet(cfg.Shape, cfg.Keys)
+		if cfg.Buffers {
+			alpha = BufferAlphabet(cfg.Keys)
+		}
 		if cfg.Reentrant {
 			alpha = append(alpha, ReentrantAlphabet(cfg.Keys)...)
 		}
@@ -114,6 +121,9 @@ func genNested(t *rapid.T, shape string, nk, depth int) []Op {
 		op := Op{Key: rapid.IntRange(0, nk-1).Draw(t, "nestedKey")}
 		if shape == ShapeECache {
 			op.Var = rapid.IntRange(0, NVariants-1).Draw(t, "nestedVar")
+			if rapid.IntRange(0, 3).Draw(t, "nestedViaBuffer") == 0 {
+				op.Buf = rapid.IntRange(1, NBufs).Draw(t, "nestedBuf")
+			}
 		}
 		switch kind := rapid.IntRange(0, 9).Draw(t, "nestedKind"); {
 		case kind < 7:
@@ -134,12 +144,16 @@ func genNested(t *rapid.T, shape string, nk, depth int) []Op {
 
 // genOps draws an op list for a configuration.
 func genOps(t *rapid.T, shape string, nk, maxLen int, heavy bool) []Op {
+	reuse := shape == ShapeECache && rapid.Bool().Draw(t, "reusePKBuffers") // half of the ecache cases
 	opGen := rapid.Custom(func(t *rapid.T) Op {
 		kind := rapid.IntRange(0, 99).Draw(t, "kind")
 		key := rapid.IntRange(0, nk-1).Draw(t, "key")
-		vr := 0
+		vr, buf := 0, 0
 		if shape == ShapeECache {
 			vr = rapid.IntRange(0, NVariants-1).Draw(t, "var")
+			if reuse && rapid.IntRange(0, 2).Draw(t, "viaBuffer") > 0 { // the caller recycles its key buffers
+				buf = rapid.IntRange(1, NBufs).Draw(t, "buf")
+			}
 		}
 		gEnd, rEnd, cEnd := 64, 80, 86 // g 64% r 16% c 6% x 14%
 		if heavy {
@@ -150,13 +164,13 @@ func genOps(t *rapid.T, shape string, nk, maxLen int, heavy bool) []Op {
 		}
 		switch {
 		case kind < gEnd:
-			op := Op{K: "g", Key: key, Var: vr, Fail: rapid.IntRange(0, 5).Draw(t, "fail") == 0}
+			op := Op{K: "g", Key: key, Var: vr, Buf: buf, Fail: rapid.IntRange(0, 5).Draw(t, "fail") == 0}
 			if nk > 1 && rapid.IntRange(0, 5).Draw(t, "reentrant") == 0 { // the create function uses the cache itself
 				op.Nested = genNested(t, shape, nk, 1)
 			}
 			return op
 		case kind < rEnd:
-			return Op{K: "r", Key: key, Var: vr}
+			return Op{K: "r", Key: key, Var: vr, Buf: buf}
 		case kind < cEnd:
 			return Op{K: "c"}
 		default:
